@@ -264,11 +264,11 @@ def parent_main(prop, tier, seed):
     for v in violations:
         hit = findings.match(known, prop, v["key"])
         if hit:
-            known_v.setdefault(v["key"], (hit, v))
+            known_v.setdefault(hit[0], (hit[1], v))
         else:
             new_v.append(v)
-    for key, (hit, v) in sorted(known_v.items()):
-        print(f"KNOWN-FINDING: property={prop} key={key} {hit}")
+    for key, (text, v) in sorted(known_v.items()):
+        print(f"KNOWN-FINDING: property={prop} key={key} {text}")
     status = 0
     seen_keys = set()
     for v in new_v:
@@ -285,8 +285,11 @@ def parent_main(prop, tier, seed):
     for name in info["required"]:
         if counters.get(name, 0) == 0:
             reasons.append(f"deciding monitor never reached: counter '{name}' is 0")
+    unresolved = sorted(k[6:] for k in anchors if k.startswith("ERROR "))
     for name in info["req_anchors"]:
         if anchors.get(name, 0) == 0:
+            if "#" in name and any(u.startswith(name + ":") for u in unresolved):
+                continue  # a source-text pattern that no longer exists (refactoring): reported, not judged
             reasons.append(f"anchored code never executed: '{name}'")
     if evaluations and inconcl > 0.01 * evaluations:
         reasons.append(f"{inconcl} of {evaluations} cases inconclusive (timeouts)")
@@ -302,7 +305,8 @@ def parent_main(prop, tier, seed):
         "samples": samples[:6] or ["(no sample recorded)"],
         "counters": {k: v for k, v in sorted(counters.items()) if not k.startswith("violation:")},
         "violation_keys": {k[len("violation:"):]: v for k, v in sorted(counters.items()) if k.startswith("violation:")},
-        "anchors": dict(sorted(anchors.items())),
+        "anchors": {k: v for k, v in sorted(anchors.items()) if not k.startswith("ERROR ")},
+        "anchors_unresolved": unresolved,
         "known_findings_seen": sorted(known_v),
         "inconclusive_cases": inconcl,
         "inconclusive_reasons": reasons,
